@@ -328,6 +328,36 @@ def eval_product(specs):
                          f"after {txt}, operand {k} lists {len(a)} combinations {a[:4]} instead of its own {len(b)}: {b[:4]}"))
     diff = compare(got, exp, ordered)
     if diff:
+        # which recorded defect (if any) reproduces exactly what was returned: keeps a recorded finding from absorbing
+        # another wrong product of the same operand class
+        explained = None
+        try:
+            def _ident(s_):
+                # an item-less operand acting as the identity: one combination made of its constants (and derived values)
+                one = ref_list({**s_, "items": [["zz_dummy", [0]]], "dims": None})
+                return [{k: v for k, v in c.items() if k != "zz_dummy"} for c in one]
+
+            def _model(drop_dims, identity):
+                lists = []
+                for k_, (e, s_) in enumerate(zip(exps, specs)):
+                    if identity and not s_["items"]:
+                        lists.append(_ident(s_))
+                    elif drop_dims and k_ > 0:
+                        lists.append(ref_list({**s_, "dims": None}))
+                    else:
+                        lists.append(e)
+                return _cartesian(lists)
+
+            for name, dd, idn in (("dims-of-other-operands-dropped", True, False), ("item-less-operand-is-identity", False, True),
+                                  ("dims-of-other-operands-dropped+item-less-operand-is-identity", True, True)):
+                if (dd and left_dims) or (idn and not empty_op):
+                    continue
+                if not compare(got, _model(dd, idn), False):
+                    explained = name
+                    break
+        except Exception:  # noqa: BLE001
+            explained = None
+        sig = {**sig, "explained": explained}
         viol.append(({"kind": "value-mismatch", "diff": diff, **sig},
                      f"{txt}.list() has {len(got)} combinations {got[:8]}{'...' if len(got) > 8 else ''}; the Cartesian product of the "
                      f"operand lists has {len(exp)}: {exp[:8]}{'...' if len(exp) > 8 else ''}"))
@@ -513,6 +543,13 @@ def eval_count(case):
     viol = []
     ok = isinstance(got, dict) and set(got) == set(exp) and all(dict(got[f]) == exp[f] and all(isinstance(k, tuple) for k in got[f]) for f in exp)
     if not ok:
+        def _norm(d):
+            return {(k if isinstance(k, tuple) else (k,)): v for k, v in dict(d).items()}
+        try:
+            scalar_keys_only = isinstance(got, dict) and set(got) == set(exp) and all(_norm(got[f]) == exp[f] for f in exp)
+        except Exception:  # noqa: BLE001
+            scalar_keys_only = False
+        sig = {**sig, "explained": "scalar-keys-instead-of-1-tuples" if scalar_keys_only else None}
         viol.append(({"kind": "value-mismatch", **sig}, f"{txt} = {got}; multiplicities per root-argument tuple are {exp}"))
     return viol, bool(combos), f"count:deps={len(exp)},n={len(combos)}", strata
 
